@@ -103,6 +103,9 @@ struct Scenario {
     /// log only AppEnd (not AppStart) - for the counting spec on large concurrent runs
     #[serde(default)]
     count_only: bool,
+    /// log the queue's own metrics (X04) after the handle drop
+    #[serde(default)]
+    self_metrics: bool,
 }
 
 #[derive(Clone)]
@@ -319,6 +322,33 @@ fn run_race_rounds(sc: &Scenario, q: &Q, ctl: &StreamCtl) {
     }
 }
 
+/// The queue's own metrics as seen by the metrics recorder: (emitted, io_errors,
+/// validation_errors, max queue_len sample, max idle_percent sample).
+fn self_metrics(rec: &metrics_util_020::debugging::Snapshotter) -> (i64, i64, i64, i64, i64, i64) {
+    use metrics_util_020::debugging::DebugValue;
+    let (mut em, mut io, mut val, mut qlen, mut idle, mut ovf) = (0i64, 0i64, 0i64, 0i64, 0i64, 0i64);
+    for (k, _u, _d, v) in rec.snapshot().into_vec() {
+        match (k.key().name(), v) {
+            ("metrique_metrics_emitted", DebugValue::Counter(c)) => em += c as i64,
+            ("metrique_io_errors", DebugValue::Counter(c)) => io += c as i64,
+            ("metrique_validation_errors", DebugValue::Counter(c)) => val += c as i64,
+            ("metrique_queue_overflows", DebugValue::Counter(c)) => ovf += c as i64,
+            ("metrique_queue_len", DebugValue::Histogram(h)) => {
+                for x in h {
+                    qlen = qlen.max(x.into_inner() as i64);
+                }
+            }
+            ("metrique_idle_percent", DebugValue::Histogram(h)) => {
+                for x in h {
+                    idle = idle.max(x.into_inner() as i64);
+                }
+            }
+            _ => {}
+        }
+    }
+    (em, io, val, qlen, idle, ovf)
+}
+
 fn run_scenario(sc: &Scenario) {
     let ctrl = sched::controller();
     let nprod = sc.producers.len();
@@ -489,7 +519,17 @@ fn run_scenario(sc: &Scenario) {
                 std::thread::sleep(Duration::from_millis(2));
             }
             if let Some(snap) = &debug_rec {
-                trace::evi("Overflows", &[("n", overflow_count(snap))]);
+                // one snapshot only: taking a snapshot resets the recorder's counters
+                if sc.self_metrics {
+                    let (em, io, val, qlen, idle, ovf) = self_metrics(snap);
+                    trace::evi("Overflows", &[("n", ovf)]);
+                    trace::evi(
+                        "SelfMetrics",
+                        &[("emitted", em), ("io", io), ("val", val), ("qlen", qlen), ("idle", idle)],
+                    );
+                } else {
+                    trace::evi("Overflows", &[("n", overflow_count(snap))]);
+                }
             }
             drop(q);
             trace::evi("SinkDrop", &[("p", 0)]);
